@@ -124,7 +124,31 @@ def fun_cases(tier):
                    "kind": "class", "expect": [("def", "mx", ["self"] + exp_names, exp_defaults, vararg)], "init": None, "bases": [], "cls": "Mx", "tags": ["params:" + ",".join(c[0] for c in combo)]}
 
 
+def default_value_cases(tier):
+    """one defaulted parameter, the default ranging over every KIND of value (the emitted default must be that value)"""
+    values = [("Int", "7", "7"), ("Int", "-1", "-1"), ("Float", "1.5", "1.5"), ("Str", '"d"', "'d'"), ("Str", '""', "''"), ("Bool", "True", "True"), ("Int?", "None", "None"),
+              ("Int", "1 + 2", "1 + 2"), ("List[Int]", "[1, 2]", "[1, 2]"), ("List[Int]", "[]", "[]"), ("Set[Int]", "{1, 2}", "{1, 2}"), ("(Int, Int)", "(1, 2)", "(1, 2)"),
+              ("Dict[Int, Int]", "{1 => 2}", "{1: 2}"), ("List[Str]", '["a"]', "['a']"), ("List[List[Int]]", "[[1], [2]]", "[[1], [2]]"), ("Kd", "Kd()", "Kd()")]
+    n = 0
+    for ty, val, py in values:
+        pre = "class Kd\n" if "Kd" in ty else ""
+        tags = ["default-kind:" + val]
+        n += 1
+        yield {"id": "c17-d%d" % n, "family": "c17.default-values", "src": pre + "def fx(a: Int, p: %s := %s) -> Int => 1\n" % (ty, val), "kind": "function",
+               "expect": [("def", "fx", ["a", "p"], [py], None)], "init": None, "bases": [], "tags": tags + ["in:function"]}
+        n += 1
+        yield {"id": "c17-d%d" % n, "family": "c17.default-values", "src": pre + "def fx(a: Int, p: %s := %s) -> Int =>\n    print(a)\n    1\n" % (ty, val), "kind": "function",
+               "expect": [("def", "fx", ["a", "p"], [py], None)], "init": None, "bases": [], "tags": tags + ["in:function-block"]}
+        n += 1
+        yield {"id": "c17-d%d" % n, "family": "c17.default-values", "src": pre + "class Mx\n    def mx(self, p: %s := %s) -> Int => 1\n" % (ty, val), "kind": "class",
+               "expect": [("def", "mx", ["self", "p"], [py], None)], "init": None, "bases": [], "cls": "Mx", "tags": tags + ["in:method"]}
+        n += 1
+        yield {"id": "c17-d%d" % n, "family": "c17.default-values", "src": pre + "class Mx\n    def v: Int\n    def __init__(self, p: %s := %s) =>\n        self.v := 1\n" % (ty, val), "kind": "class",
+               "expect": [("field", "v")], "init": (["self", "p"], [py], None), "bases": [], "cls": "Mx", "tags": tags + ["in:explicit-init"]}
+
+
 def cases(tier, seed):
+    yield from default_value_cases(tier)
     yield from class_cases(tier)
     yield from fun_cases(tier)
 
